@@ -48,11 +48,18 @@ def isas_special(did, k):
         [variant("Z\u00fcrich2", "tuple", [field("u8")]), variant("Caf\u00e92"), variant("M\u00fcnchen10", "named", [field("u8", "x")])],
         [variant("Solo", "tuple", [])],
         [variant("Solo")],
+        # explicit discriminants on data-carrying variants (legal with a primitive repr)
+        "REPR_U8",
         # more variants than a byte counts; a few carry payloads, a few are disabled
         [variant("V%03d" % i, "tuple" if i in (5, 130, 258, 299) else "unit", [field("u8")] if i in (5, 130, 258, 299) else [], dis=(i in (7, 260)))
          for i in range(300)],
     ]
-    return enum(did, shapes[k % len(shapes)])
+    sh = shapes[k % len(shapes)]
+    if sh == "REPR_U8":
+        vs = [variant("Small", "tuple", [field("u8")], disc=1), variant("Pair", "tuple", [field("u8"), field("bool")], disc=7), variant("Empty", "tuple", [], disc=9),
+              variant("Plain", disc=12), variant("Named", "named", [field("u8", "x")]), variant("Off", "tuple", [field("u8")], dis=True, disc=40)]
+        return enum(did, vs, repr_="u8")
+    return enum(did, sh)
 
 
 def _vals(E, v, which):
@@ -88,14 +95,12 @@ def isas_module(E, facts):
     # no method may exist for a disabled variant.  Inherent methods take precedence over trait methods, so a fallback trait
     # with the same names answers (false / None) exactly when the derive generated nothing of that name.
     if dis:
-        g = D.GENERICS[E["generics"]]
-        tg = {"none": "", "ty": "<T>", "tywhere": "<T>", "lt": "<'a>", "const": "<N>", "tyconst": "<T, N>", "tydef": "<T>", "constdef": "<N>"}[E["generics"]]
         src += "pub trait NoSuchMethod {\n"
         for (j, w) in dis:
             src += "    fn is_%s(&self) -> bool { false }\n" % snake[j]
             if w["kind"] == "tuple":
                 src += "    fn try_as_%s_ref(&self) -> Option<()> { None }\n" % snake[j]
-        src += "}\nimpl%s NoSuchMethod for %s%s%s {}\n" % (g.get("impl_decl", g["decl"]), E["name"], tg, g.get("where", ""))
+        src += "}\n%s {}\n" % D.impl_header(E).replace("impl", "impl", 1).replace(" " + E["name"], " NoSuchMethod for " + E["name"], 1)
     body = []
     for i, v in enumerate(E["variants"]):
         k = i + 1
@@ -183,6 +188,8 @@ def msg_special(did, k):
         [variant("Gerbil", dis=True, dmsg="a very hidden gerbil"), variant("Cat", msg="cat")],
         [variant("Rat", dis=True, msg="rat", dmsg="a very hidden rat", docs=[" hidden"]), variant("Dog", dmsg="only detail")],
         [variant("Tab", docs=["\ttab first"]), variant("Nbsp", docs=["\u00a0nbsp first", "\u3000wide"]), variant("Sp", docs=["  two", " one", "none", ""])],
+        [variant("Unknown", "tuple", [field("String")], default=True, ts="unrecognised", ser=["u1", "u-two"], msg="m"), variant("Known", msg="k", docs=[" d"])],
+        [variant("Low", msg="l", dmsg="ld", docs=[" low"]), variant("Internal", dis=True, msg="i", dmsg="id", docs=[" internal"]), variant("High", msg="h", dmsg="hd", docs=[" high"])],
         [variant("Kilo", ser=["kB", "KB", "kilobyte"], aci=1), variant("Mega", ser=["mb"], ts="MB", aci=1, acif=1), variant("Giga", ser=["gb", "GB!"], aci=0)],
         [variant("Block", docs=[" first\nsecond"]), variant("Block2", docs=[" a\n b\n"]), variant("Two", docs=[" x\ny", " z"]), variant("Plain", docs=[" one"])],
     ]
@@ -256,6 +263,9 @@ def prop_special(did, k):
         [variant("First", props=[P("colour", "s", "red", 0)]), variant("Hidden", dis=True, props=[P("colour", "s", "grey", 0), P("closed", "b", [1], 0, "true")]),
          variant("Second", "tuple", [field("u8")], props=[P("colour", "s", "blue", 0)]), variant("Last")],
     ]
+    shapes.append([variant("Before", dis=True), variant("Lone", props=[P("colour", "s", "red", 0), P("n", "i", "4", 0, "4"), P("ok", "b", [1], 0, "true")]),
+                   variant("After", "tuple", [field("u8")], dis=True, props=[P("colour", "s", "grey", 0)])])
+    shapes.append([variant("EmptyTuple", "tuple", [], props=[P("k", "s", "t", 0)]), variant("EmptyNamed", "named", [], props=[P("k", "s", "n", 0)]), variant("Unit", props=[P("k", "s", "u", 0)])])
     shapes.append([variant("Text", props=[P("level", "s", "3", 0), P("on", "s", "true", 0), P("width", "s", "16", 0)]),
                    variant("Number", props=[P("level", "i", "3", 0, "3"), P("on", "b", [1], 0, "true"), P("width", "i", "16", 0, "0x10")]),
                    variant("Same", props=[P("level", "s", "3", 0), P("on", "s", "true", 0), P("width", "s", "16", 0)])])
